@@ -152,7 +152,10 @@ class Rule(Expression):
 
             if self.modifier & SILENT:
                 gen.writeln(f"# Silent rule {self.name!r}")
-                gen.writeln(f"{pairs_var}.extend({children})")
+                # Like `parse`, pass the children up only when the rule matched.
+                gen.writeln(f"if {matched_var}:")
+                with gen.block():
+                    gen.writeln(f"{pairs_var}.extend({children})")
                 gen.writeln(f"return {matched_var}")
             else:
                 tag_var = gen.new_temp("tag")
